@@ -79,6 +79,8 @@ def impl(line: str) -> str:
         return f"ok {hx(r)} {n}"
     if op in ("eval", "execwit"):
         return SP.impl_eval(t)
+    if op == "bteval":
+        return SP.impl_eval(["eval", *t[1:], "0", "deny"])
     if op == "verify":
         return SP.impl_verify(t)
     return "bad-op"
@@ -246,6 +248,18 @@ def core_vectors(ctx):
                      key="core.script_tests", op_line=v["line"][:600], impl=want, model=out)
 
 
+def bt_stream(ctx, name, lines):
+    """the btclib-shaped Lean model against the real engine (correspondence); lines on which the model steps outside
+    the op codes it covers (`unsupported`: signature checks) are counted and left out"""
+    outs = ctx.model(EXE, lines)
+    if outs is None:
+        return
+    keep = [(ln, impl(ln)) for ln, o in zip(lines, outs) if o != "unsupported"]
+    ctx.count(name + ".coverage", "unsupported", len(lines) - len(keep))
+    ctx.count(name + ".coverage", "covered", len(keep))
+    ctx.correspond(name, EXE, keep)
+
+
 def tx_vectors(ctx):
     """Core's tx_valid / tx_invalid through the transcription (must give Core's verdict: validation of the
     specification) and through the real engine (must agree with the transcription input by input)."""
@@ -340,6 +354,9 @@ def run(ctx):
 
     # ---- layer 4: EvalScript, signature-free programs
     SP.run_eval(ctx, spec)
+
+    # ---- T3 chain: real engine ~ btclib-shaped model (the refinement to Core.eval is proved family by family)
+    SP.run_bt(ctx, bt_stream)
 
     # ---- layer 5: VerifyScript shell
     SP.run_verify(ctx, spec)
